@@ -156,6 +156,19 @@ def leave_pre(E, v, o):
     return z3.And(i >= 0, i < nof(n.fields["attach"]), acc >= 1, acc <= 9, z3.Implies(acc >= 3, z3.And(*cl)))
 
 
+def edge_bands(rp, rc, h2):
+    """both sphere/frustum intersections of one compartment lie outside the library's own tolerance bands (C13.outside_tolerance_bands:
+    radii and squared length only, no coordinate): the parent's sphere sits on the c1 end of the frustum, the child's on the c2 end"""
+    return z3.And(C13.outside_tolerance_bands(rp, rc, h2, at_c1=z3.BoolVal(True)), C13.outside_tolerance_bands(rc, rp, h2, at_c1=z3.BoolVal(False)))
+
+
+def leave_bands(E, v, o):
+    n, acc = v["n"], to_z3(E.spec_extra["accuracy"], "int")
+    cn, rn = node_geom(n)
+    cl = [edge_bands(rn, rc, d2(cn, cc)) for cc, rc in (sphere_geom(c) for c in v["children"].items)]
+    return z3.Implies(acc >= 3, z3.And(*cl)) if cl else True
+
+
 def leave_delta(E, v, o):
     n, acc = o["n"], to_z3(E.spec_extra["accuracy"], "int")
     cn, rn = node_geom(n)
@@ -242,6 +255,15 @@ def sfi_pre(E, v, o):
     return z3.And(z3.Or(at1, at2), r1 > 0, r2 > 0, d2(c1, c2) > 0)
 
 
+def sfi_bands(E, v, o):
+    s, f = v["self"].fields["obj1"], v["self"].fields["obj2"]
+    cs, rs = sphere_geom(s)
+    c1, c2 = [R(x) for x in f.fields["c1"].items], [R(x) for x in f.fields["c2"].items]
+    r1, r2 = R(f.fields["r1"]), R(f.fields["r2"])
+    at1 = z3.And(rs == r1, *[a == b for a, b in zip(cs, c1)])
+    return C13.outside_tolerance_bands(rs, r1 + r2 - rs, d2(c1, c2), at_c1=at1)
+
+
 def sfi_post(E, v, o):
     s, f = o["self"].fields["obj1"], o["self"].fields["obj2"]
     cs, rs = sphere_geom(s)
@@ -261,26 +283,6 @@ def sfi_hint(E, vars):
     f = vars["self"].fields["obj2"]
     c1, c2 = [R(x) for x in f.fields["c1"].items], [R(x) for x in f.fields["c2"].items]
     E.prove("VolSphereFrustumConeIntersection._get_volume/step/height-is-the-centre-distance", centre_distance(E, c1, c2) == R(vars["hh"]), "annotation")
-
-
-def _make_fuv_usable_at_call_sites(Rg):
-    """C13's contract of find_unit_vector_on_plane states its postcondition through a clause that reads the carrier's local `r`
-    (proof hints); at a CALL SITE there is no such local.  Same contract object, same clause when the carrier is verified;
-    at call sites the plain statement (unit vector orthogonal to the argument) is assumed."""
-    c = Rg.get(f"{C13.SG}:find_unit_vector_on_plane")
-    if c is None or getattr(c, "_c14_wrapped", False):
-        return
-    lab, orig = c.ensures[0]
-
-    def clause(E, v, o):
-        if "r" in v:
-            return orig(E, v, o)
-        u, n = [R(x) for x in v["result"].items], [R(x) for x in o["normal_vec3"].items]
-        dot = lambda a, b: sum((x * y for x, y in zip(a, b)), z3.RealVal(0))
-        return z3.And(dot(u, u) == 1, dot(u, n) == 0)
-
-    c.ensures[0] = (lab, clause)
-    c._c14_wrapped = True
 
 
 # ===========================================================================
@@ -306,6 +308,10 @@ RANK = z3.Function("child_rank", _I, _I)
 NDIST = z3.Function("node_distance", _I, _I, _Re)
 SHARE = z3.Function("node_share", _I, _I, _Re)
 SUMV = z3.Function("sum_of_node_shares", _I, z3.ArraySort(_I, _B), _Re)
+# EDGE_OK(p, c): the compartment between node p and its child c lies outside the library's own tolerance bands, i.e.
+#   edge_bands(r_p, r_c, |xyz_p - xyz_c|^2)   (C13.outside_tolerance_bands at both ends; radii and squared length only).
+# Like NDIST its defining equation is nonlinear, so it is instantiated by hand at the edges the leave step looks at (`edge_ok_at`).
+EDGE_OK = z3.Function("compartment_outside_the_tolerance_bands", _I, _I, _B)
 MCV = z3.Real("monte_carlo_only_estimate")  # what the (assumed) level-10 worker returns
 EMPTY = z3.K(_I, z3.BoolVal(False))
 
@@ -367,7 +373,8 @@ def tree_vocabulary(E, old):
     # into a search that ignores its time limit whenever an obligation fails
     E.assume(SUMV(acc, EMPTY) == 0)
     E.assumptions.add("ghost definitions (C14 whole-tree statement): children_count / child / child_rank (children in table order), "
-                      "node_distance (non-negative root of the squared centre distance of two nodes; defining property instantiated at the edges of the leave step), node_share (the per-node inclusion-exclusion share, "
+                      "node_distance (non-negative root of the squared centre distance of two nodes; defining property instantiated at the edges of the leave step), "
+                      "compartment_outside_the_tolerance_bands (C13.outside_tolerance_bands at both ends of a parent-child compartment: radii and squared length only; defining equation instantiated at the edges of the leave step), node_share (the per-node inclusion-exclusion share, "
                       f"written out for at most {MAXK} children), sum_of_node_shares (fold of node_share over a finite node set; its step equation instantiated at the sets of the leave step), all_nodes_of_the_table (the set of row positions)")
 
 
@@ -390,11 +397,15 @@ def gvfc_wf(which):
         if which == "from-level-3-positive-radii-and-distinct-neighbour-centres":
             acc = to_z3(v["accuracy"], "int")
             return z3.Implies(acc >= 3, z3.And(trad(t, 0) > 0, z3.ForAll([i], z3.Implies(inr, z3.And(trad(t, i) > 0, d2(tpos(t, z3.Select(P, i)), tpos(t, i)) > 0)))))
+        if which == "from-level-3-every-compartment-outside-the-librarys-own-tolerance-bands":
+            acc = to_z3(v["accuracy"], "int")
+            return z3.Implies(acc >= 3, z3.ForAll([i], z3.Implies(inr, EDGE_OK(z3.Select(P, i), i))))
         raise KeyError(which)
 
     return (which, f)
 
 
+GVFC_BANDS = "from-level-3-every-compartment-outside-the-librarys-own-tolerance-bands"
 GVFC_WF = ["ids-are-positions", "node-0-is-the-root-and-parents-exist", "every-node-reaches-the-root", "at-most-three-children-per-node"]
 GVFC_PRE3 = "from-level-3-positive-radii-and-distinct-neighbour-centres"
 
@@ -421,6 +432,11 @@ def gvfc_child_value(E, node):
     return Obj(VolSphere, dict(center=c, radius=Sym(rn, "real"), sdf=_handle(SDF_SPHERE(*cn, rn)), volume=Sym(z3.RealVal(4) / 3 * PI * (rn * rn * rn), "real")))
 
 
+def edge_ok_at(E, t, p, c):
+    """instance of the DEFINITION of the ghost predicate EDGE_OK at the edge (p, c)"""
+    E.assume(EDGE_OK(p, c) == edge_bands(trad(t, p), trad(t, c), d2(tpos(t, p), tpos(t, c))))
+
+
 def gvfc_Ql(E, v, x, val, ctx):
     """the value left for node x is THE sphere of node x (centre, radius, SDF handle; its volume cache, if filled, holds the closed form)"""
     from swcgeom.utils.volumetric_object import VolSphere
@@ -435,6 +451,9 @@ def gvfc_Ql(E, v, x, val, ctx):
     if vol is not None:
         cl.append(R(vol) == z3.RealVal(4) / 3 * PI * (rn * rn * rn))
     E.ghost.setdefault("c14-step-values", []).append((x, val))
+    step_node = E.ghost.get("traverse-step-node")
+    if step_node is not None and not z3.eq(step_node, x):  # x is a child of the node of this leave step
+        edge_ok_at(E, t, step_node, x)
     return z3.And(*cl)
 
 
@@ -528,10 +547,10 @@ def gvfc_post_hint(E, vars):
 
 
 def register(Rg: Registry):
-    _make_fuv_usable_at_call_sites(Rg)
     Rg.add(f"{VOL}:_get_volume_frustum_cone.<locals>.leave", prop="C14",
            variants={f"{k}-children": leave_setup(k) for k in (0, 1, 2, 3)},
-           requires=[("node-in-range-levels-1-to-9-and-from-level-3-positive-radii-distinct-centres", leave_pre)],
+           requires=[("node-in-range-levels-1-to-9-and-from-level-3-positive-radii-distinct-centres", leave_pre),
+                     ("from-level-3-every-child-compartment-outside-the-librarys-own-tolerance-bands", leave_bands)],
            ensures=[("volume-grows-by-the-nodes-inclusion-exclusion-share", leave_delta),
                     ("returns-the-nodes-sphere", leave_returns_sphere),
                     ("children-untouched", leave_children_kept)],
@@ -543,11 +562,11 @@ def register(Rg: Registry):
     # contract of calc_concentric_intersect_volume (used modularly: its precondition is an obligation here)
     Rg.add(SFI_KEY, prop="C14",
            variants={f"sphere-at-{e}-end/{nm}": sfi_setup(e, tp) for e in ("c1", "c2") for nm, tp in (("widening", False), ("taper", True))},
-           requires=[("concentric-with-one-end", sfi_pre)],
+           requires=[("concentric-with-one-end", sfi_pre), ("radii-and-height-outside-the-librarys-own-tolerance-bands", sfi_bands)],
            returns="real",
            ensures=[("equals-integral-of-the-smaller-profile", sfi_post)],
            lemmas=[sfi_reveal],
-           options=dict(exact_tolerances=True, globals_override={"eps": 0}, hints={"post/equals-integral-of-the-smaller-profile": sfi_hint}),
+           options=dict(hints={"post/equals-integral-of-the-smaller-profile": sfi_hint}),
            notes="the closed form itself (both taper directions) is proved in contracts/C13.py")
 
     # ASSUMED contract (never verified): Monte-Carlo volume of a generic SDF object.  "Returns the measure of the set the
@@ -566,7 +585,7 @@ def register(Rg: Registry):
                 kids=(NK, KID, RANK), ghost_leave=gvfc_step_hints, fork_steps=True)
     Rg.add(f"{VOL}:_get_volume_frustum_cone", prop="C14",
            setup=gvfc_setup(False),
-           requires=[gvfc_wf(w) for w in GVFC_WF] + [("level-1-to-10", lambda E, v, o: z3.And(to_z3(v["accuracy"], "int") >= 1, to_z3(v["accuracy"], "int") <= 10)), gvfc_wf(GVFC_PRE3)],
+           requires=[gvfc_wf(w) for w in GVFC_WF] + [("level-1-to-10", lambda E, v, o: z3.And(to_z3(v["accuracy"], "int") >= 1, to_z3(v["accuracy"], "int") <= 10)), gvfc_wf(GVFC_PRE3), gvfc_wf(GVFC_BANDS)],
            ghost_entry=tree_vocabulary, returns="real",
            ensures=[("volume-is-the-sum-over-all-nodes-of-the-nodes-inclusion-exclusion-share", gvfc_post)],
            options=dict(traverse_rule=rule, hints={"post/volume-is-the-sum-over-all-nodes-of-the-nodes-inclusion-exclusion-share": gvfc_post_hint}),
@@ -624,7 +643,7 @@ def register(Rg: Registry):
     Rg.add(f"{VOL}:get_volume", prop="C14",
            variants={"int-level": gv_setup(int), "low": gv_setup("low"), "middle": gv_setup("middle"), "high": gv_setup("high"),
                      "unknown-name": gv_setup("ultra"), "unknown-method": gv_setup(int, "voxel")},
-           requires=[gvfc_wf(w) for w in GVFC_WF] + [with_level(gvfc_wf(GVFC_PRE3))],
+           requires=[gvfc_wf(w) for w in GVFC_WF] + [with_level(gvfc_wf(GVFC_PRE3)), with_level(gvfc_wf(GVFC_BANDS))],
            ghost_entry=tree_vocabulary,
            raises={"AssertionError": ("only-for-a-level-outside-1-to-10", gv_bad_level),
                    "KeyError": ("only-for-an-unknown-level-name", lambda E, v, o: isinstance(v["accuracy"], str) and v["accuracy"] not in LEVELS),
